@@ -65,7 +65,7 @@ ob("bignum", "VerifC03XBig", q, uniq(t),
 
 # ---- *read-base* = *print-base*, no radix ----
 q = [(2, 8, 0), (10, 6, 1), (16, 3, 0), (30, 2, 0), (36, 3, 0)]
-t = list(q) + [(8, 4, 1), (24, 3, 1)] + [(b, 3, l) for b in range(2, 37) for l in (0, 1)]
+t = list(q) + [(8, 4, 1), (24, 3, 1)] + [(b, 3, 0) for b in range(2, 37)]
 ob("readbase", "VerifC03XReadBase", q, uniq(t),
    "fixnum x symbolic with |x| < base^digits printed without *print-radix* in *print-base* base, alone or three times inside a "
    "nested list next to a symbol, and read with *read-base* = base: the reader must take the token as the same integer",
@@ -109,7 +109,7 @@ ob("string", "VerifC03XString", q, t,
 # ---- symbols that look like signed numbers ----
 NNAMES = 27
 q = [(0, i, 10) for i in range(NNAMES)] + [(0, i, 16) for i in (0, 2, 16, 17, 19)] + [(0, 18, 36), (1, 2, 10)]
-t = list(q) + [(1, 2, 16)] + [(0, i, b) for i in range(NNAMES) for b in (2, 16, 36)] + [(1, 3, 10), (1, 3, 16)]
+t = list(q) + [(1, 2, 16)] + [(0, i, b) for i in range(NNAMES) for b in (2, 16, 36)] + [(1, 3, 10)]
 ob("symnum", "VerifC03XSymNum", q, uniq(t),
    "symbols whose names look like signed numbers (-1 +3/4 -1.5 -1e5 +1.0d0 1+ -f +a/b ... grid of 27 names, and a SYMBOLIC "
    "name: a sign followed by 2 (thorough 3) bytes over {+ - 1 9 . / e f}) printed under *print-base* 10/16/36 and read with "
@@ -118,7 +118,7 @@ ob("symnum", "VerifC03XSymNum", q, uniq(t),
 
 # ---- nested structures under the printer control variables, flat and pretty ----
 q = [(0, 3), (1, 7), (2, 2), (3, 1), (4, 4)]
-t = [(sh, c) for sh in range(5) for c in range(10)]
+t = uniq(q + [(sh, c) for sh in range(4) for c in (0, 1, 2, 3, 7, 8, 9)] + [(4, c) for c in (0, 4, 5, 6)])
 ob("nest", "VerifC03XNest", q, t,
    "nested structures (lists of lists of vectors with dotted tails; vector of lists of vectors; depth 7; a 12-element list; "
    "integers in every position) with mixed leaves: ONE SYMBOLIC fixnum |x| < 1300 used in several places, ONE SYMBOLIC "
@@ -153,7 +153,7 @@ ob("quote", "VerifC03XQuote", uniq(q), t,
 q = [(0, 10, 0, 2, 0, 0, 0, 1), (0, 16, 1, 1, 0, 1, 0, 0), (1, 10, 0, 2, 1, 0, 0, 1), (1, 8, 1, 3, 0, 1, 0, 0), (2, 10, 0, 2, 1, 1, 2, 1),
      (2, 16, 1, 0, 0, 2, 0, 0), (2, 36, 0, 1, 0, 3, 1, 0), (0, 10, 0, 2, 0, 0, 1, 0), (1, 10, 0, 2, 0, 0, 1, 0), (0, 2, 0, 2, 0, 0, 0, 1)]
 t = list(q) + [(0, 2, 0, 3, 1, 2, 2, 0), (0, 36, 0, 0, 0, 3, 0, 0), (1, 16, 0, 1, 0, 2, 2, 0), (0, 16, 0, 2, 0, 0, 0, 1)] + [(h, b, r, pc, pr, lim, mi, a) for h in (0, 1, 2) for b in (2, 10, 36) for r in (0, 1) for pc, pr, lim, mi, a in
-               ((0, 0, 0, 0, 0), (1, 1, 1, 2, 1), (2, 0, 2, 1, 0), (3, 1, 3, 0, 1))]
+               ((1, 1, 1, 2, 1), (2, 0, 2, 1, 0))]
 ob("ctl", "VerifC03XCtl", q, uniq(t),
    "the printer control variables given from Lisp through the real registry: bound with let, assigned with setq (the real "
    "setters of the global printer, restored afterwards) or passed as write-to-string keywords: *print-base* x *print-radix* "
